@@ -172,6 +172,11 @@ def model(case, with_sources=True):
             # taper preconditions are assertions in the code; such inputs are
             # outside the domain of the physics properties (C13/C20 judge them)
             raise Rejected('taper assertion line %d' % tb[-1].lineno)
+        if tb and tb[-1].name == 'add' and tb[-1].filename.endswith('mininec.py'):
+            # both ends of one object joining the same earlier end (closed arc attached to
+            # an earlier object, duplicate objects): the program stops with an assertion;
+            # there is no model to judge - reported by C20
+            raise Rejected('crash: Connected_Geobj.add assertion (judged by C20)')
         raise
     if not isinstance(r, mm.Mininec):
         raise Rejected((out + err).strip())
